@@ -50,9 +50,9 @@ POOLS = {
 }
 HOWS = ('all', 'all', 'all', 'count', 'exists', 'first', 'page', 'limit2')
 RAW = [
-    'update P set a = a + 10 where a is not null',
+    'update P set a = a + 10 where id <= 2 and a is not null',
     'update P set s = \'zz\' where id = 1',
-    'delete from P where id = 2',
+    'update P set b = 9, f = 0 where id = 2',
     'insert into P (a, r, u, g) values (5, 1, \'n\', 1)',
 ]
 
@@ -66,26 +66,31 @@ INITIAL_ROWS = [
 
 
 def gen_history(rng, n, raw=True):
-    """A random history: a few queries re-used with different parameter values / types, interleaved with writes."""
+    """A random history: a few queries re-used with different parameter values / types, interleaved with writes.
+    Session-level writes touch rows 3..5 (each deleted at most once), raw SQL touches rows 1..2, so that no step raises."""
     qids = rng.sample(range(len(QUERIES)), rng.choice((2, 3, 4)))
     h = []
+    alive = [3, 4, 5]
     for _ in range(n):
         r = rng.random()
         prev = [x for x in h if x[0] == 'query']
         if r < 0.25 and prev:
-            h.append(list(rng.choice(prev)))            # the very same query, parameters and fetch mode again
+            h.append(json.loads(json.dumps(rng.choice(prev))))   # the very same query, parameters and fetch mode again
         elif r < 0.62:
             qid = rng.choice(qids)
             params = {k: rng.choice(v) for k, v in POOLS[qid].items()}
-            h.append(['query', qid, params, rng.choice(HOWS)])
-        elif r < 0.72: h.append(['set', rng.choice((1, 2, 3, 4, 5)), rng.choice(('a', 'b', 's')), rng.choice((0, 1, 5, 7, None))])
+            h.append(json.loads(json.dumps(['query', qid, params, rng.choice(HOWS)])))
+        elif r < 0.72 and alive:
+            attr = rng.choice(('a', 'b', 's'))
+            h.append(['set', rng.choice(alive), attr, rng.choice(('x', 'ab', '', None)) if attr == 's' else rng.choice((0, 1, 5, 7, None))])
         elif r < 0.77: h.append(['create', rng.choice((1, 5, 9))])
-        elif r < 0.80: h.append(['delete', rng.choice((3, 4, 5))])
+        elif r < 0.80 and len(alive) > 1:
+            row = rng.choice(alive); alive.remove(row); h.append(['delete', row])
         elif r < 0.84: h.append(['flush'])
         elif r < 0.88: h.append(['commit'])
         elif r < 0.92: h.append(['new_session'])
         elif r < 0.96 and raw: h.append(['raw', rng.randrange(len(RAW))])
-        else: h.append(['bulk_delete', rng.choice((1, 5, 9))])
+        elif r >= 0.96: h.append(['bulk_delete', 9])
     return h
 
 
@@ -130,6 +135,7 @@ def canon(v):
     if isinstance(v, float): return repr(v)
     if isinstance(v, (tuple, list)): return [canon(x) for x in v]
     if hasattr(v, '_pk_'): return {'P': v._pk_}
+    if hasattr(v, '__iter__'): return [canon(x) for x in v]        # QueryResult
     return repr(v)
 
 
@@ -259,20 +265,54 @@ def compare(history, warm, cold):
     return bad
 
 
+def qkey(step):
+    return json.dumps(step[1:4], sort_keys=True)
+
+
+def explain(history, i):
+    """Which recorded hole of the result cache (if any) makes the model of Model/C05Memo.v predict a stale answer at step i.
+    Mirrors sstep with raw_clears = aggr_flushes = false."""
+    cache, pending, version = {}, 0, 0
+    for j, step in enumerate(history[:i + 1]):
+        k = step[0]
+        if k == 'query':
+            q = qkey(step)
+            aggregate = step[3] == 'count'
+            if not aggregate:
+                if pending: version += pending; pending = 0; cache = {}
+                if j == i: return 'raw-sql-write-leaves-query-results' if (q in cache and cache[q] != version) else None
+                cache.setdefault(q, version)
+            else:
+                if q in cache:
+                    if j == i:
+                        if cache[q] != version: return 'raw-sql-write-leaves-query-results'
+                        if pending: return 'aggregate-result-cache-skips-flush'
+                        return None
+                else:
+                    if pending: version += pending; pending = 0; cache = {}
+                    if j == i: return None
+                    cache[q] = version
+        elif k in ('set', 'create', 'delete'): pending += 1
+        elif k == 'flush':
+            if pending: version += pending; pending = 0; cache = {}
+        elif k in ('commit', 'new_session'):
+            version += pending; pending = 0; cache = {}
+        elif k == 'bulk_delete':
+            version += pending + 1; pending = 0; cache = {}
+        elif k == 'raw':
+            if pending: version += pending; pending = 0; cache = {}
+            version += 1
+    return None
+
+
 def classify(history, i):
-    """Finding key for a divergence at step i: which kind of step changed the data since the same query ran before."""
+    """Finding key for a divergence at step i."""
     step = history[i]
     if step[0] != 'query': return 'unlisted:non-query-step'
-    same = [j for j in range(i) if history[j][0] == 'query' and history[j][1:3] == step[1:3]]
-    since = history[(same[-1] if same else 0):i]
-    kinds = {s[0] for s in since}
-    session_boundary = kinds & {'commit', 'new_session', 'flush', 'set', 'create', 'delete', 'bulk_delete'}
-    if 'raw' in kinds and same and not session_boundary:
-        return 'raw-sql-write-leaves-query-results'
-    if 'raw' in kinds and same:
-        # a raw write, then Pony-level activity that should have cleared the cache anyway
-        return 'unlisted:raw-plus-' + '+'.join(sorted(session_boundary))
-    return 'unlisted:q%d:%s' % (step[1], '+'.join(sorted(kinds - {'query'})) or 'queries-only')
+    k = explain(history, i)
+    if k: return k
+    kinds = sorted({s[0] for s in history[:i]} - {'query'})
+    return 'unlisted:q%d:%s:%s' % (step[1], step[3], '+'.join(kinds) or 'queries-only')
 
 
 def shrink_history(history, still_fails):
